@@ -237,6 +237,10 @@ cfg_transaction! {
     pub mod transaction;
 }
 
+#[cfg(fe2o3_amqp_verif)]
+#[allow(missing_docs, unexpected_cfgs)]
+pub mod verif;
+
 pub mod types {
     //! Re-exporting `fe2o3-amqp-types`
     pub use fe2o3_amqp_types::*;
